@@ -241,3 +241,7 @@ CLAUSES = [
                 "corpus, half from the shipped example files; non-trivial: distinct inputs for which a parser returned an object (counted by the target)"),
 ]
 KNOWN_PREDICATES = {}
+
+# coverage-guided second driver (atheris / libFuzzer through Hypothesis' fuzz_one_input) for the core clauses: (clause, quick runs, thorough runs)
+from harness.covfuzz import cov_clauses  # noqa: E402
+CLAUSES += cov_clauses('C17', CLAUSES, [('wellformed', 3000, 60000), ('corrupted', 1500, 30000)])
